@@ -174,9 +174,9 @@ func ruleSandbox(c *Ctx) {
 		})
 	}
 	c.atLeast("process-start sinks", nStart, 3)
-	c.atLeast("calls through OpenFileFunc", nOpen, 3)
+	c.atLeast("calls through OpenFileFunc", nOpen, 2) // at least one for reading and one for writing; readers may share a helper
 	c.atLeast("write opens", nOpenW, 1)
-	c.atLeast("read opens", nOpenR, 2)
+	c.atLeast("read opens", nOpenR, 1)
 	c.check(len(execCmdFuncs) == 1, "exec.Command:single-helper", token.NoPos,
 		fmt.Sprintf("exec.Command/CommandContext referenced in exactly one function %v", keys(execCmdFuncs)),
 		fmt.Sprintf("exec.Command/CommandContext referenced in %d functions %v (expected the single helper)", len(execCmdFuncs), keys(execCmdFuncs)))
@@ -295,39 +295,61 @@ func ruleSandbox(c *Ctx) {
 				continue
 			}
 			nDash++
-			found := false
-			for _, d := range fn.Blocks {
-				if len(d.Instrs) == 0 || !d.Dominates(b) {
-					continue
+			// dashExcluded: block blk of function f is reached only when a string was compared with "-" and differed
+			dashExcluded := func(f *ssa.Function, blk *ssa.BasicBlock) bool {
+				for _, d := range f.Blocks {
+					if len(d.Instrs) == 0 || !d.Dominates(blk) {
+						continue
+					}
+					di, ok := d.Instrs[len(d.Instrs)-1].(*ssa.If)
+					if !ok {
+						continue
+					}
+					bo, ok := di.Cond.(*ssa.BinOp)
+					if !ok || (bo.Op != token.EQL && bo.Op != token.NEQ) {
+						continue
+					}
+					isDash := func(v ssa.Value) bool {
+						k, ok := v.(*ssa.Const)
+						return ok && k.Value != nil && k.Value.ExactString() == `"-"`
+					}
+					if !isDash(bo.X) && !isDash(bo.Y) {
+						continue
+					}
+					dashSucc := d.Succs[0]
+					if bo.Op == token.NEQ {
+						dashSucc = d.Succs[1]
+					}
+					if !reachableAvoiding(dashSucc, d)[blk] {
+						return true
+					}
 				}
-				di, ok := d.Instrs[len(d.Instrs)-1].(*ssa.If)
-				if !ok {
-					continue
+				return false
+			}
+			found := dashExcluded(fn, b)
+			if !found {
+				// the guard lives in a helper shared by several readers: then every call of the helper must be
+				// reached only with a name that was compared with "-" and differed
+				sites, okSites := 0, 0
+				for _, g := range fns {
+					for _, gb := range g.Blocks {
+						for _, gin := range gb.Instrs {
+							if call, ok := gin.(ssa.CallInstruction); ok && call.Common().StaticCallee() == fn {
+								sites++
+								if dashExcluded(g, gb) {
+									okSites++
+								}
+							}
+						}
+					}
 				}
-				bo, ok := di.Cond.(*ssa.BinOp)
-				if !ok || (bo.Op != token.EQL && bo.Op != token.NEQ) {
-					continue
-				}
-				isDash := func(v ssa.Value) bool {
-					k, ok := v.(*ssa.Const)
-					return ok && k.Value != nil && k.Value.ExactString() == `"-"`
-				}
-				if !isDash(bo.X) && !isDash(bo.Y) {
-					continue
-				}
-				dashSucc := d.Succs[0]
-				if bo.Op == token.NEQ {
-					dashSucc = d.Succs[1]
-				}
-				if !reachableAvoiding(dashSucc, d)[b] {
-					found = true
-				}
+				found = sites > 0 && sites == okSites
 			}
 			c.check(found, "dash-exempt:"+fnKey(fn), ifi.Pos(), "the NoFileReads test is reached only when the name is not \"-\" (standard input stays available)",
 				"the NoFileReads test can be reached with the name \"-\": standard input under the name \"-\" would be denied")
 		}
 	}
-	c.atLeast("NoFileReads tests", nDash, 2)
+	c.atLeast("NoFileReads tests", nDash, 1)
 }
 
 // mustStoreAtSuccess: interp fields definitely stored on every path to a `return ..., nil`.
